@@ -29,9 +29,12 @@ let str_of_code c = match int_of_zz c with 0 -> "ok" | -1 -> "other" | -2 -> "?"
 let minute = BZ.of_string "60000000000"
 let age_min clock created =
   BZ.to_string (BZ.fdiv (BZ.sub (big_of_z clock) (big_of_z created)) minute)
+(* an item without its time stamp (a store that rebuilds items): age "z" *)
+let age_str clock created =
+  if BZ.equal (big_of_z created) (big_of_z rb_zero_time) then "z" else age_min clock created
 let str_of_item clock i =
   Printf.sprintf "%s:%s:%s:%s:%s:%s:%s" (dec_of_z (rb_it_seq i)) (dec_of_z (rb_it_cas i)) (hex_of_bytes (rb_it_bv i))
-    (hex_of_bytes (rb_it_k i)) (hex_of_bytes (rb_it_salt i)) (hex_of_bytes (rb_it_sig i)) (age_min clock (rb_it_created i))
+    (hex_of_bytes (rb_it_k i)) (hex_of_bytes (rb_it_salt i)) (hex_of_bytes (rb_it_sig i)) (age_str clock (rb_it_created i))
 let dump clock s =
   let l = List.map (fun (t, i) -> hex_of_bytes t ^ ":" ^ str_of_item clock i) s in
   let l = List.sort compare l in
@@ -49,6 +52,10 @@ let str_opt_z = function None -> "-" | Some q -> dec_of_z q
 
 (* ---------- state ---------- *)
 let exp_ns = ref Z0
+(* kind of the underlying store of the current case (b44kbegin): it loses the stamp on write / on read *)
+let kfp = ref false
+let kfg = ref false
+let rebuilding () = !kfp || !kfg
 let sst = ref rb_s0
 let cths = ref []
 let cst = ref (rb_cinit [] [])
@@ -95,7 +102,11 @@ let () =
     | _ -> "?");
   (* ---- sequential histories ---- *)
   reg "b44begin" (fun a _ -> match a with
-    | [_case; e] -> exp_ns := z_of_dec e; sst := rb_s0; "ok"
+    | [_case; e] -> exp_ns := z_of_dec e; sst := rb_s0; kfp := false; kfg := false; "ok"
+    | _ -> "?");
+  (* a case over a store that copies / rebuilds items: fp fg as in Bep44Rebuild.skind *)
+  reg "b44kbegin" (fun a _ -> match a with
+    | [_case; e; _kind; fp; fg] -> exp_ns := z_of_dec e; sst := rb_s0; kfp := (fp = "1"); kfg := (fg = "1"); "ok"
     | _ -> "?");
   reg "b44end" (fun _ _ -> "ok");
   reg "b44age" (fun a _ -> match a with
@@ -103,13 +114,17 @@ let () =
     | _ -> "?");
   reg "b44put" (fun a _ -> match a with
     | [bv; k; salt; sg; cas; seq] -> guarded (fun () ->
-        let (st', c) = rb_sput edv !exp_ns !sst (mk_item bv k salt sg cas seq) in
+        let (st', c) =
+          if rebuilding () then rb_skput edv !exp_ns !kfp !kfg !sst (mk_item bv k salt sg cas seq)
+          else rb_sput edv !exp_ns !sst (mk_item bv k salt sg cas seq) in
         sst := st';
         Printf.sprintf "%s | %s" (str_of_code c) (sdump ()))
     | _ -> "?");
   reg "b44get" (fun a _ -> match a with
     | [t] ->
-      let (st', r) = rb_sget edv !exp_ns !sst (bytes_of_hex t) in
+      let (st', r) =
+        if rebuilding () then rb_skget edv !exp_ns !kfp !kfg !sst (bytes_of_hex t)
+        else rb_sget edv !exp_ns !sst (bytes_of_hex t) in
       sst := st';
       let f = (match r with None -> "notfound" | Some i -> "found " ^ str_of_item (rb_sclock st') i) in
       Printf.sprintf "%s | %s" f (sdump ())
@@ -117,15 +132,20 @@ let () =
   (* ---- server level: inbound put / get (token already valid), Server.Put ---- *)
   reg "b44wput" (fun a _ -> match a with
     | [bv; k; salt; sg; cas; seq] -> guarded (fun () ->
-        let (st', c) = rb_swput edv !exp_ns !sst (bytes_of_hex bv) (bytes_of_hex k) (bytes_of_hex salt)
-            (bytes_of_hex sg) (z_of_dec cas) (opt_z seq) in
+        let (st', c) =
+          if rebuilding () then rb_skwput edv !exp_ns !kfp !kfg !sst (bytes_of_hex bv) (bytes_of_hex k) (bytes_of_hex salt)
+              (bytes_of_hex sg) (z_of_dec cas) (opt_z seq)
+          else rb_swput edv !exp_ns !sst (bytes_of_hex bv) (bytes_of_hex k) (bytes_of_hex salt)
+              (bytes_of_hex sg) (z_of_dec cas) (opt_z seq) in
         sst := st';
         if int_of_zz c = 0 then Printf.sprintf "reply | %s" (sdump ())
         else Printf.sprintf "error %s | %s" (str_of_code c) (sdump ()))
     | _ -> "?");
   reg "b44wget" (fun a _ -> match a with
     | [t; sq] ->
-      let (st', (rs, rv)) = rb_swget edv !exp_ns !sst (bytes_of_hex t) (opt_z sq) in
+      let (st', (rs, rv)) =
+        if rebuilding () then rb_skwget edv !exp_ns !kfp !kfg !sst (bytes_of_hex t) (opt_z sq)
+        else rb_swget edv !exp_ns !sst (bytes_of_hex t) (opt_z sq) in
       sst := st';
       let v = (match rv with
           | None -> "- - -"
@@ -135,8 +155,11 @@ let () =
   reg "b44lput" (fun a _ -> match a with
     | [bv; k; salt; sg; cas; seq] -> guarded (fun () ->
         let ko = if k = "-" then None else Some (bytes_of_hex k) in
-        let (st', (c, q)) = rb_slput edv !exp_ns !sst (bytes_of_hex bv) ko (bytes_of_hex salt) (bytes_of_hex sg)
-            (z_of_dec cas) (z_of_dec seq) in
+        let (st', (c, q)) =
+          if rebuilding () then rb_sklput edv !exp_ns !kfp !kfg !sst (bytes_of_hex bv) ko (bytes_of_hex salt) (bytes_of_hex sg)
+              (z_of_dec cas) (z_of_dec seq)
+          else rb_slput edv !exp_ns !sst (bytes_of_hex bv) ko (bytes_of_hex salt) (bytes_of_hex sg)
+              (z_of_dec cas) (z_of_dec seq) in
         sst := st';
         match q with
         | Some (((((qbv, qk), qsalt), qsig), qcas), qseq) ->
